@@ -103,7 +103,7 @@ def materialize(env, spec, d):
             model['sources'][fs['name'] + '.zst'] = z; model['orig'][fs['name']] = raw
             ok, data, msg = library_verdict(env, zp, model['dictpath'])
             model['expect'][fs['name'] + '.zst'] = data if ok else None
-        if spec.get('preexisting'):
+        if spec.get('preexisting') and not spec.get('stdout'):   # with -c the 'destination' is the caller's stdout redirection, not zstd's business
             dp = dest_of(spec, fs)
             if dp and dp not in model['pre']:
                 old = b'PRE-EXISTING DESTINATION ' + fs['name'].encode() * 20
